@@ -1,6 +1,6 @@
 SPECIFICATION Spec
 CONSTANTS
-  NilSendEOF = TRUE
+  NilSend = "doc"
   Senders = {"s1"}
   Receivers = {"r1"}
   Cap = 0
